@@ -38,6 +38,16 @@ def _task(task):
                             ob['replay'] = replay_model(c, ob['model'])
                         except Exception:
                             ob['replay'] = dict(outcome='spec-error', detail=traceback.format_exc(limit=4))
+                # an obligation the solver left open (typically: no model of the quantified dtype axioms) is still decided when the contract's own
+                # witness family fails on the real function: a real failure is a violation whatever the solver said
+                if c.get('witness_on_unknown') and c.get('concrete_inputs') and any(o['verdict'] == 'undecided' for o in rep['obligations']):
+                    try:
+                        w = replay_model(c, {})
+                    except Exception:
+                        w = dict(outcome='spec-error', detail=traceback.format_exc(limit=4))
+                    for ob in rep['obligations']:
+                        if ob['verdict'] == 'undecided':
+                            ob['replay'] = w
             # bounded stand-in of this function: always in the thorough tier, and whenever the proof is incomplete
             incomplete = rep['status'] != 'ok' or rep.get('unsupported') or any(o['verdict'] != 'proved' for o in rep['obligations'])
             if incomplete or task.get('tier') == 'thorough' or c.get('always_enum'):
